@@ -166,7 +166,7 @@ var ruleEsc = &Rule{
 							m[*letter] = k
 						}
 					}
-					if sc := c.Call.StaticCallee(); sc != nil && sc.Signature.Recv() != nil && namedOf(sc.Signature.Recv().Type()) == lexT && sc.Signature.Params().Len() == 0 &&
+					if sc := c.Call.StaticCallee(); sc != nil && takesOnly(sc, lexT) &&
 						sc.Name() != "next" && sc.Signature.Results().Len() == 1 {
 						sp[*letter] = sc.Name()
 					}
@@ -605,4 +605,14 @@ func runeMapLiteral(p *Prog, m ssa.Value) map[int64]int64 {
 		}
 	}
 	return out
+}
+
+// takesOnly: fn's only input is a value of the named type, as receiver or as
+// its single parameter.
+func takesOnly(fn *ssa.Function, t *types.Named) bool {
+	sig := fn.Signature
+	if sig.Recv() != nil {
+		return namedOf(sig.Recv().Type()) == t && sig.Params().Len() == 0
+	}
+	return sig.Params().Len() == 1 && namedOf(sig.Params().At(0).Type()) == t
 }
